@@ -459,6 +459,7 @@ def handleCoverage (l : Line) : Verdict :=
 def handle (l : Line) : Option Verdict :=
   if l.op == "simd_dispatch" then some (handleDispatch l)
   else if l.op == "simd_count_big" then some (handleCountBig l)
+  else if l.op == "simd_mem_big" then some (verdict [] [])     -- big memcpy / memset: judged by the C-side predicates
   else if l.op == "simd_gather_wide" then some (handleGatherWide l)
   else if l.op == "simd_coverage" then some (handleCoverage l)
   else if l.op.startsWith "simd_" then some (handleKernel l (l.op.drop 5).toString)
